@@ -28,4 +28,394 @@ theorem C13_gen_recv_translation :
       cases d "nmap" <;> simp
   · funext fr; rfl
 
+/-! ## 2. ports: only RUNNING software keeps a port open -/
+
+theorem view_some (n : Node) (u : Nat) (s : SwView) (h : view n u = some s) :
+    s.uid = u ∧ s.running = n.isRunning u ∧
+      ∃ m, n.metaOf u = some m ∧ s.name = m.cls.name ∧ s.port = m.cls.port ∧ s.protocol = m.cls.proto ∧ s.listen = m.listen := by
+  unfold view at h
+  cases hm : n.metaOf u with
+  | none => simp [hm] at h
+  | some m =>
+    simp only [hm, Option.map_some, Option.some.injEq] at h
+    subst h
+    exact ⟨rfl, rfl, m, rfl, rfl, rfl, rfl, rfl⟩
+
+/-- `get_open_ports` as translated from the source computes what `Node.openPorts` (the model the lifecycle theorems and the
+rig's state line use) computes -/
+theorem C13_open_ports_views_eq (n : Node) : openPortsV n = n.openPorts := by
+  unfold openPortsV portMapValues getOpenPorts Node.openPorts
+  induction n.portMap with
+  | nil => rfl
+  | cons e t ih =>
+    simp only [List.filterMap_cons, List.flatMap_cons]
+    cases hv : view n e.2 with
+    | none =>
+      have hm : n.metaOf e.2 = none := by
+        unfold view at hv
+        cases hm : n.metaOf e.2 with
+        | none => rfl
+        | some m => simp [hm] at hv
+      have hr : n.isRunning e.2 = false := by
+        unfold Node.metaOf at hm
+        unfold Node.isRunning
+        cases hs : n.findSvc e.2 with
+        | some i => simp [hs] at hm
+        | none =>
+          simp only [hs] at hm
+          cases ha : n.findApp e.2 with
+          | some i => simp [ha] at hm
+          | none => rfl
+      simp only [hr]
+      simpa using ih
+    | some s =>
+      obtain ⟨_, hrun, m, hm, _, hp, _, hl⟩ := view_some n e.2 s hv
+      simp only [List.flatMap_cons, ih, hm, hrun, hp, hl]
+      cases n.isRunning e.2 <;> cases hls : m.listen <;> simp
+
+/-- **`get_open_ports()` lists a port only for RUNNING software**: every port it reports is the port, or a listening port,
+of an object that owns a port-table entry and is RUNNING. -/
+theorem C13_open_port_only_running (n : Node) (p : Nat) (h : p ∈ openPortsV n) :
+    ∃ k u s, (k, u) ∈ n.portMap ∧ view n u = some s ∧ n.isRunning u = true ∧ (p = s.port ∨ p ∈ s.listen) := by
+  unfold openPortsV portMapValues getOpenPorts at h
+  simp only [List.mem_flatMap, List.mem_filterMap] at h
+  obtain ⟨s, ⟨⟨k, u⟩, hmem, hv⟩, hp⟩ := h
+  obtain ⟨_, hrun, _⟩ := view_some n u s hv
+  cases hr : s.running with
+  | false => simp [hr] at hp
+  | true =>
+    refine ⟨k, u, s, hmem, hv, by rw [← hrun, hr], ?_⟩
+    simp only [hr, if_true] at hp
+    cases hl : s.listen with
+    | nil => simp [hl] at hp; exact Or.inl hp
+    | cons a t =>
+      simp [hl] at hp
+      rcases hp with h1 | h2 | h3
+      · exact Or.inl h1
+      · exact Or.inr (by simp [h2])
+      · exact Or.inr (by simp [h3])
+
+/-- **`check_port_is_open(port, protocol)` is true exactly when some installed software with that port and protocol is
+RUNNING** (both directions, every registry state). -/
+theorem C13_check_port_open_iff (n : Node) (port proto : Nat) :
+    portIsOpen n port proto = true ↔
+      ∃ name u s, (name, u) ∈ n.software ∧ view n u = some s ∧ s.port = port ∧ s.protocol = proto ∧ n.isRunning u = true := by
+  unfold portIsOpen checkPortIsOpen softwareValues
+  simp only [List.any_eq_true, List.mem_filterMap, Bool.and_eq_true, beq_iff_eq]
+  constructor
+  · rintro ⟨s, ⟨⟨name, u⟩, hmem, hv⟩, ⟨hp, hq⟩, hr⟩
+    obtain ⟨_, hrun, _⟩ := view_some n u s hv
+    exact ⟨name, u, s, hmem, hv, hp, hq, by rw [← hrun, hr]⟩
+  · rintro ⟨name, u, s, hmem, hv, hp, hq, hr⟩
+    obtain ⟨_, hrun, _⟩ := view_some n u s hv
+    exact ⟨s, ⟨(name, u), hmem, hv⟩, ⟨hp, hq⟩, by rw [hrun, hr]⟩
+
+/-- hence: no software RUNNING ⇒ no port open, by either function -/
+theorem C13_nothing_running_nothing_open (n : Node) (h : ∀ u, n.isRunning u = false) :
+    openPortsV n = [] ∧ ∀ port proto, portIsOpen n port proto = false := by
+  constructor
+  · cases hl : openPortsV n with
+    | nil => rfl
+    | cons p t =>
+      obtain ⟨_, u, _, _, _, hr, _⟩ := C13_open_port_only_running n p (by rw [hl]; simp)
+      rw [h u] at hr; cases hr
+  · intro port proto
+    cases hb : portIsOpen n port proto with
+    | false => rfl
+    | true =>
+      obtain ⟨_, u, _, _, _, _, _, hr⟩ := (C13_check_port_open_iff n port proto).mp hb
+      rw [h u] at hr; cases hr
+
+/-- The two functions are NOT the same question (observation, as the code is): `check_port_is_open` looks at every installed
+software's own port, `get_open_ports` only at the owners of port-table slots (plus their listening ports).  web-server then
+web-browser (both 80/tcp; the browser, installed later, owns the slot and is CLOSED): the nmap answer is "open", the frame
+filter's is "closed". -/
+example :
+    let n := ({} : Node).run [.installSvc { name := "web-server", port := 80, proto := 1 } true [] .good 2,
+                              .installApp { name := "web-browser", port := 80, proto := 1 } true [] .good 2]
+    portIsOpen n 80 1 = true ∧ openPortsV n = [] := by decide
+
+/-! ## 3. the receive path -/
+
+theorem dget_mem {κ ν} [DecidableEq κ] (l : List (κ × ν)) (k : κ) (v : ν) (h : dget k l = some v) : (k, v) ∈ l := by
+  induction l with
+  | nil => simp [dget] at h
+  | cons a t ih =>
+    obtain ⟨k', v'⟩ := a
+    simp only [dget] at h
+    by_cases hk : k' = k
+    · simp only [hk, if_true, Option.some.injEq] at h
+      subst h; subst hk; simp
+    · simp only [hk, if_false] at h
+      exact List.mem_cons_of_mem _ (ih h)
+
+/-- every registry entry refers to an existing object (holds on every reachable node: `wf_of_rep`) -/
+def WF (n : Node) : Prop :=
+  (∀ x ∈ n.software, (n.metaOf x.2).isSome = true) ∧ (∀ x ∈ n.portMap, (n.metaOf x.2).isSome = true)
+
+theorem wf_of_rep (n : Node) (es : List Entry) (h : Rep n es) : WF n := by
+  have key : ∀ e ∈ es, (n.metaOf e.uid).isSome = true := by
+    intro e he
+    have := rep_nameOf n es h e he
+    unfold Node.nameOf at this
+    cases hm : n.metaOf e.uid with
+    | none => simp [hm] at this
+    | some m => rfl
+  constructor
+  · intro x hx
+    rw [h.software] at hx
+    obtain ⟨e, he, rfl⟩ := List.mem_map.mp hx
+    exact key e he
+  · intro x hx
+    obtain ⟨e, he, hu⟩ := h.portOwners x hx
+    rw [← hu]; exact key e he
+
+theorem view_of_meta (n : Node) (u : Nat) (h : (n.metaOf u).isSome = true) : ∃ s, view n u = some s ∧ s.uid = u := by
+  unfold view
+  cases hm : n.metaOf u with
+  | none => simp [hm] at h
+  | some m => exact ⟨_, rfl, rfl⟩
+
+theorem view_none_iff (n : Node) (u : Nat) : view n u = none ↔ n.metaOf u = none := by
+  unfold view
+  cases n.metaOf u <;> simp
+
+/-- the listeners computed over views are the listeners computed over uids -/
+theorem listeners_eq (n : Node) (port : Nat) (main : Option Nat) (mainV : Option SwView)
+    (hmain : (main = none ∧ mainV = none) ∨ (∃ w sw, main = some w ∧ mainV = some sw ∧ view n w = some sw))
+    (l : List (String × Nat)) :
+    (((l.filterMap fun e => view n e.2).filter fun s => s.listen.contains port && (some s != mainV)).map
+        fun r => ((r, true) : SwView × Bool).1.uid) =
+      (l.map (·.2)).filter (fun u =>
+        (match n.metaOf u with
+         | some m => m.listen.contains port
+         | none => false) && main != some u) := by
+  induction l with
+  | nil => rfl
+  | cons e t ih =>
+    simp only [List.filterMap_cons, List.map_cons, List.filter_cons]
+    cases hv : view n e.2 with
+    | none =>
+      have hm := (view_none_iff n e.2).mp hv
+      simp only [hm, Bool.false_and]
+      exact ih
+    | some s =>
+      obtain ⟨hu, _, m, hm, _, _, _, hl⟩ := view_some n e.2 s hv
+      simp only [List.filter_cons, hm, hl]
+      have hne : (some s != mainV) = (main != some e.2) := by
+        rcases hmain with ⟨h1, h2⟩ | ⟨w, sw, h1, h2, h3⟩
+        · subst h1; subst h2; rfl
+        · subst h1; subst h2
+          by_cases hw : w = e.2
+          · subst hw
+            rw [hv] at h3
+            cases h3
+            rw [bne_self_eq_false, bne_self_eq_false]
+          · have : s ≠ sw := by
+              intro hs
+              subst hs
+              obtain ⟨hu2, _⟩ := view_some n w s h3
+              exact hw (by rw [← hu2, hu])
+            have h1 : (some s != some sw) = true := by
+              rw [bne_iff_ne]; intro h; exact this (Option.some.inj h)
+            have h2 : (some w != some e.2) = true := by
+              rw [bne_iff_ne]; intro h; exact hw (Option.some.inj h)
+            rw [h1, h2]
+      rw [hne]
+      cases hc : (m.listen.contains port && main != some e.2)
+      · simp only [Bool.false_eq_true, if_false]; exact ih
+      · simp only [if_true, List.map_cons, hu]; rw [ih]
+
+/-- **The receive path translated from the source is the model's `Node.receivers`** (which the lifecycle rig has been
+diffing against the implementation since round 1) on every node whose registries refer to existing objects —
+in particular on every reachable node (`wf_of_rep`, `C13_registries_agree`). -/
+theorem C13_recv_path_eq_receivers (n : Node) (hwf : WF n) (port proto : Nat) (scan : Bool) :
+    n.receivers port proto scan = some (recvUids n port proto scan) := by
+  unfold Node.receivers recvUids recvCalls receivePath
+  cases scan
+  · simp only [Bool.false_eq_true, if_false]
+    have hmain : (dget (port, proto) n.portMap = none ∧ portMapGet n (port, proto) = none) ∨
+        (∃ w sw, dget (port, proto) n.portMap = some w ∧ portMapGet n (port, proto) = some sw ∧ view n w = some sw) := by
+      unfold portMapGet
+      cases hd : dget (port, proto) n.portMap with
+      | none => exact Or.inl ⟨rfl, rfl⟩
+      | some w =>
+        obtain ⟨sw, hsw, _⟩ := view_of_meta n w (hwf.2 _ (dget_mem _ _ _ hd))
+        exact Or.inr ⟨w, sw, rfl, by simp [hsw], hsw⟩
+    have hl := listeners_eq n port _ _ hmain n.software
+    rcases hmain with ⟨h1, h2⟩ | ⟨w, sw, h1, h2, h3⟩
+    · simp only [h1, h2] at hl ⊢
+      simp only [List.nil_append, List.append_nil, List.map_map]
+      unfold softwareValues
+      refine congrArg some ?_
+      refine Eq.trans hl.symm ?_
+      simp [Function.comp_def]
+    · obtain ⟨hu, _⟩ := view_some n w sw h3
+      simp only [h1, h2] at hl ⊢
+      simp only [List.append_nil, List.map_append, List.map_cons, List.map_nil, List.map_map, hu]
+      unfold softwareValues
+      refine congrArg some ?_
+      refine congrArg (fun l => [w] ++ l) ?_
+      refine Eq.trans hl.symm ?_
+      simp [Function.comp_def]
+  · simp only [if_true]
+    unfold softwareGet
+    cases hd : dget "nmap" n.software with
+    | none => simp
+    | some u =>
+      obtain ⟨s, hs, hu⟩ := view_of_meta n u (hwf.1 _ (dget_mem _ _ _ hd))
+      simp [hs, hu]
+
+/-! ### what a delivery does: only RUNNING software on an ON node processes the payload -/
+
+theorem dget_dset {κ ν} [DecidableEq κ] (l : List (κ × ν)) (k k' : κ) (v : ν) :
+    dget k' (dset k v l) = if k = k' then some v else dget k' l := by
+  induction l with
+  | nil => simp [dset, dget]
+  | cons a t ih =>
+    obtain ⟨ka, va⟩ := a
+    by_cases h1 : ka = k
+    · subst h1
+      by_cases h2 : ka = k' <;> simp [dset, dget, h2]
+    · by_cases h2 : ka = k'
+      · subst h2
+        have : ¬ k = ka := fun h => h1 h.symm
+        simp [dset, dget, h1, this]
+      · simp [dset, dget, h1, h2, ih]
+
+/-- behind a closed running-guard `receive` does nothing: no state change, nothing sent, payload untouched, returns False -/
+theorem C13_receive_blocked (d : Data) (now : Nat) (p : Payload) : d.receive false now p = (d, .f, [], p) := rfl
+
+/-- one `receive` call: lifecycle and registries untouched; other objects' data untouched; an object that may not act
+(node not ON, or not RUNNING) keeps its data, sends nothing, leaves the payload alone and answers False (`none`: unmodelled
+class, only the guard is known); whatever is sent is sent by the object itself. -/
+theorem recvAt_spec (nn : NetNode) (u port proto : Nat) (p : Payload) :
+    (nn.recvAt u port proto p).1.n = nn.n ∧ (nn.recvAt u port proto p).1.now = nn.now ∧
+    (nn.recvAt u port proto p).1.addr = nn.addr ∧
+    (nn.recvAt u port proto p).2.1.uid = u ∧ (nn.recvAt u port proto p).2.1.handled = nn.n.handles u ∧
+    (∀ v, v ≠ u → dget v (nn.recvAt u port proto p).1.data = dget v nn.data) ∧
+    (nn.n.handles u = false →
+      dget u (nn.recvAt u port proto p).1.data = dget u nn.data ∧ (nn.recvAt u port proto p).2.2.1 = [] ∧
+      (nn.recvAt u port proto p).2.2.2 = p ∧
+      ((nn.recvAt u port proto p).2.1.ret = none ∨ (nn.recvAt u port proto p).2.1.ret = some .f)) ∧
+    (∀ s ∈ (nn.recvAt u port proto p).2.2.1, s.src = u) := by
+  unfold NetNode.recvAt
+  cases hd : dget u nn.data with
+  | none => simp [hd]
+  | some d =>
+    simp only [true_and]
+    refine ⟨?_, ?_, ?_⟩
+    · intro v hv
+      rw [dget_dset]
+      simp [Ne.symm hv]
+    · intro hh
+      simp only [hh, C13_receive_blocked]
+      refine ⟨?_, by simp, by simp⟩
+      rw [dget_dset]; simp [hd]
+    · intro s hs
+      simp only [List.mem_map] at hs
+      obtain ⟨x, _, rfl⟩ := hs
+      rfl
+
+/-- a whole delivery (any list of `receive` calls, any port, protocol and payload) -/
+theorem deliverList_spec (calls : List (Nat × Bool)) (nn : NetNode) (port proto : Nat) (p : Payload) :
+    (nn.deliverList port proto p calls).1.n = nn.n ∧ (nn.deliverList port proto p calls).1.now = nn.now ∧
+    (∀ v, nn.n.handles v = false → dget v (nn.deliverList port proto p calls).1.data = dget v nn.data) ∧
+    (∀ v, v ∉ calls.map (·.1) → dget v (nn.deliverList port proto p calls).1.data = dget v nn.data) ∧
+    (∀ s ∈ (nn.deliverList port proto p calls).2.2, nn.n.handles s.src = true ∧ s.src ∈ calls.map (·.1)) ∧
+    (nn.deliverList port proto p calls).2.1.map (·.uid) = calls.map (·.1) ∧
+    (∀ x ∈ (nn.deliverList port proto p calls).2.1,
+      x.handled = nn.n.handles x.uid ∧ (x.handled = false → x.ret = none ∨ x.ret = some .f)) := by
+  induction calls generalizing nn p with
+  | nil => simp [NetNode.deliverList]
+  | cons c us ih =>
+    obtain ⟨u, copy⟩ := c
+    obtain ⟨h1, h2, _, h4, h5, h6, h7, h8⟩ := recvAt_spec nn u port proto p
+    simp only [NetNode.deliverList]
+    obtain ⟨i1, i2, i3, i4, i5, i6, i7⟩ :=
+      ih (nn.recvAt u port proto p).1 (if copy = true then p else (nn.recvAt u port proto p).2.2.2)
+    rw [h1] at i1 i3 i5 i7
+    refine ⟨i1, i2.trans h2, ?_, ?_, ?_, ?_, ?_⟩
+    · intro v hv
+      rw [i3 v hv]
+      by_cases hvu : v = u
+      · subst hvu; exact (h7 hv).1
+      · exact h6 v hvu
+    · intro v hv
+      simp only [List.map_cons, List.mem_cons, not_or] at hv
+      rw [i4 v hv.2]
+      exact h6 v hv.1
+    · intro s hs
+      simp only [List.mem_append] at hs
+      rcases hs with hs | hs
+      · have hsrc := h8 s hs
+        refine ⟨?_, by simp [hsrc]⟩
+        cases hh : nn.n.handles u with
+        | true => rw [hsrc, hh]
+        | false => rw [(h7 hh).2.1] at hs; cases hs
+      · obtain ⟨a, b⟩ := i5 s hs
+        exact ⟨a, by simp [b]⟩
+    · simp [h4, i6]
+    · intro x hx
+      simp only [List.mem_cons] at hx
+      rcases hx with rfl | hx
+      · rw [h4, h5]
+        refine ⟨rfl, fun hh => ?_⟩
+        exact (h7 hh).2.2.2
+      · exact i7 x hx
+
+/-- **Only RUNNING software is handed a payload.**  For every node state (registries, lifecycle states, power), every
+port, protocol and payload, after `receive_payload_from_session_manager` has called `receive` on every receiver:
+lifecycle and registries are as before; the data of every object that is not RUNNING (or whose node is not ON) is as before;
+every payload sent was sent by a RUNNING object on an ON node that was a receiver; every `receive` of a not-running object
+answered False. -/
+theorem C13_payload_only_running (nn : NetNode) (port proto : Nat) (p : Payload) :
+    (nn.deliver port proto p).1.n = nn.n ∧
+    (∀ v, ¬ (nn.n.isOn = true ∧ nn.n.isRunning v = true) → dget v (nn.deliver port proto p).1.data = dget v nn.data) ∧
+    (∀ s ∈ (nn.deliver port proto p).2.2, nn.n.isOn = true ∧ nn.n.isRunning s.src = true ∧
+        s.src ∈ recvUids nn.n port proto p.isScan) ∧
+    (∀ x ∈ (nn.deliver port proto p).2.1, x.handled = (nn.n.isOn && nn.n.isRunning x.uid) ∧
+        (x.handled = false → x.ret = none ∨ x.ret = some .f)) := by
+  obtain ⟨h1, _, h3, _, h5, _, h7⟩ := deliverList_spec (recvCalls nn.n port proto p.isScan) nn port proto p
+  refine ⟨h1, ?_, ?_, ?_⟩
+  · intro v hv
+    apply h3
+    unfold Node.handles
+    cases h : nn.n.isOn <;> cases h' : nn.n.isRunning v <;> simp_all
+  · intro s hs
+    obtain ⟨a, b⟩ := h5 s hs
+    unfold Node.handles at a
+    simp only [Bool.and_eq_true] at a
+    exact ⟨a.1, a.2, by unfold recvUids; exact b⟩
+  · intro x hx
+    exact h7 x hx
+
+/-- the same through `HostNode.receive_frame` + `SessionManager.receive_frame` -/
+theorem C13_frame_payload_only_running (nn : NetNode) (h : Hdr) (p : Payload) (nn' : NetNode) (recs : List RecvRec)
+    (sents : List Sent) (hf : nn.frame h p = some (nn', recs, sents)) :
+    nn'.n = nn.n ∧ (∀ v, ¬ (nn.n.isOn = true ∧ nn.n.isRunning v = true) → dget v nn'.data = dget v nn.data) ∧
+    (∀ s ∈ sents, nn.n.isOn = true ∧ nn.n.isRunning s.src = true) := by
+  unfold NetNode.frame at hf
+  split at hf
+  · split at hf
+    · rename_i port _
+      simp only [Option.some.injEq] at hf
+      obtain ⟨a, b, c, _⟩ := C13_payload_only_running nn port h.proto p
+      rw [hf] at a b c
+      exact ⟨a, b, fun s hs => ⟨(c s hs).1, (c s hs).2.1⟩⟩
+    · cases hf
+  · cases hf
+
+/-- non-vacuity, C13-a's shape and "a stopped owner + a running listener": dns-client (uid 0) owns 53/tcp and is STOPPED, a
+dns-server (uid 1) installed under another port listens on 53 and is RUNNING; a DNS request for a registered name is handed to
+both, only the RUNNING server processes it (and replies with the registered address). -/
+example :
+    let n := ({} : Node).run [.installSvc { cid := "DNSClient", name := "dns-client", port := 53, proto := 1 } true [] .good 2,
+                              .svcReq "dns-client" .stop,
+                              .installSvc { cid := "DNSServer", name := "dns-server", port := 5353, proto := 1 } true [53] .good 2]
+    let nn : NetNode := (({ n := n } : NetNode).adopt).setData 1 (.dnsServer [("x.test", 7)])
+    (nn.deliver 53 1 (.dns "x.test" none)).2 =
+      ([{ uid := 0, handled := false, ret := some .f }, { uid := 1, handled := true, ret := some .t }],
+       [{ src := 1, dst := .session, port := 53, proto := 1, payload := .dns "x.test" (some (some 7)) }]) := by decide
+
 end Primaite.C13
